@@ -64,6 +64,17 @@ Definition in_scope (attrs : list orow) (acct : Z) (keys : list Z) (u : utxo) : 
   let a := attr_of attrs (u_id u) in
   (a_acct a =? acct) && (match keys with [] => true | _ => existsb (Z.eqb (a_key a)) keys end).
 
+(* ties of ORDER BY: sqlite walks the keys of an IN (...) filter with two or more keys in key order (measured; validated
+   by the correspondence): rows come grouped by key, inside a key in insertion order *)
+Definition lt_key (attrs : list orow) (a b : utxo) : bool :=
+  a_key (attr_of attrs (u_id a)) <? a_key (attr_of attrs (u_id b)).
+
+Definition key_order (attrs : list orow) (keys : list Z) (l : list utxo) : list utxo :=
+  match keys with
+  | _ :: _ :: _ => sort_by (lt_key attrs) l
+  | _ => l
+  end.
+
 Definition h_request (rq : hreq) : request :=
   {| rq_outputs := hq_outputs rq; rq_inputs := option_map (map x_id) (hq_inputs rq); rq_fee := hq_fee rq;
      rq_min_conf := hq_min_conf rq; rq_max_utxos := hq_max_utxos rq; rq_nchange := hq_nchange rq |}.
@@ -84,7 +95,7 @@ Definition pseudo_row (view : list utxo) (x : xin) : list utxo :=
 Definition scope (st : hstate) (rq : hreq) : list utxo :=
   match hq_inputs rq with
   | Some xs => hs_view st ++ flat_map (pseudo_row (hs_view st)) xs
-  | None => filter (in_scope (hs_attr st) (hq_acct rq) (hq_keys rq)) (hs_view st)
+  | None => key_order (hs_attr st) (hq_keys rq) (filter (in_scope (hs_attr st) (hq_acct rq) (hq_keys rq)) (hs_view st))
   end.
 
 Record htx := { x_tx : wtx; x_locktime : Z; x_seqs : list Z }.
@@ -150,7 +161,7 @@ Definition h_send (bcount : Z) (nw : network) (w : wkind) (st : hstate) (rq : hr
 Record hsweep := { hw_sweep : sweep_req; hw_keys : list Z; hw_acct : Z; hw_locktime : Z; hw_rbf : bool }.
 
 Definition sweep_scope (st : hstate) (sq : hsweep) : list utxo :=
-  filter (in_scope (hs_attr st) (hw_acct sq) (hw_keys sq)) (hs_view st).
+  key_order (hs_attr st) (hw_keys sq) (filter (in_scope (hs_attr st) (hw_acct sq) (hw_keys sq)) (hs_view st)).
 
 Definition h_sweep (bcount : Z) (nw : network) (w : wkind) (st : hstate) (sq : hsweep) (o1 o2 : oracle) : result htx :=
   match lib_sweep nw w (sweep_scope st sq) (hw_sweep sq) o1 o2 with
